@@ -11,6 +11,8 @@ TB = [
     "hand-written model of LCA_Database (six tables, insert, _signatures with its batching, get_lineage_assignments, get_identifiers_for_hashval, downsample_scaled, JSON save/load followed by further insertions), of its SQLite twin (save_to_sql, LineageDB_Sqlite, _build_index), of build_tree/find_lca/count_lca_for_assignments/pop_to_rank and of the summarize/classify loops, tied to /repo by the lca correspondence stream (differential testing)",
     "translator: taxlist(), NCBI_RANKS, the SQL column orders, the comparison and threshold expression of downsample_scaled, the _signatures batch constant, the threshold comparisons of summarize/classify are re-read from the source on every run; LineageTree.add_lineage/find_lca are checked to be the same statements as lca_utils.build_tree/find_lca (AST comparison)",
     "the name -> identifier derivation of the SQLite form (name.split(' ')[0], name.split('.')[0]) is modelled by a structurally recursive function on characters (headUntil); on every `sig` op the Lean driver compares it with String.splitOn and the stream compares the resulting identifiers with Python's split",
+    "`sourmash lca index` (Model/LcaIndex.lean: load_taxonomy_assignments with -C/--start-column, header detection, --split-identifiers, --keep-identifier-versions, null names, duplicate identifiers, -f; the main loop with duplicate md5s, --require-taxonomy, --fail-on-missing-taxonomy; the --report counts) is tied to the code by running the real argument parser and command on one-signature files and a generated spreadsheet (`index` op) and comparing exit code, report counts and every table of the database it wrote; argparse, csv, the signature file format are trusted",
+    "md5 is not modelled: the generator computes md5(str(internal ksize) + retained hashes) itself, the adapter refuses a `sig` op whose md5 is not the real md5sum, and the model takes it as given (default identifiers of unnamed signatures, duplicate detection of `lca index`)",
     "`minhash.downsample(scaled=S).hashes` is modelled as the sketch's hashes <= max_hash (C01/C03's subject); Python dict ordering is modelled as insertion order; the iteration order of Python sets (the idx sets of _hashval_to_idx, rebuilt with set(list) by load) is a CPython artefact: the model keeps first-insertion order and every observation that comes out of a set (lineage lists, identifier lists, hash values, signatures) is sorted on both sides; json, sqlite3, gzip, the filesystem are trusted",
 ]
 AS = [
@@ -23,7 +25,8 @@ RULE = ("histories: 1..12 signatures (hashes shared heavily; values at max_hash(
         "default/first word/version-stripped/arbitrary/colliding, insertion orders, refused insertions; every hash queried on the "
         "in-memory database, after JSON save/load (and after further insertions into the loaded database and a second round trip), after conversion to SQLite, after downsample_scaled on each form and on a database "
         "built directly at the target scaled; summarize/classify with thresholds 0..5; find_lca on arbitrary lineage sets by both "
-        "implementations.  non-trivial = >= 2 accepted insertions and >= 3 non-empty lineage answers (or >= 3 find_lca answers); "
+        "implementations; DNA / protein / dayhoff / hp databases; unnamed signatures (filename / md5-prefix identifiers); "
+        "`sourmash lca index` runs with generated spreadsheets and option sets.  non-trivial = >= 2 accepted insertions and >= 3 non-empty lineage answers (or >= 3 find_lca answers); "
         "distinct = distinct op lists")
 
 
@@ -33,5 +36,5 @@ def classify(case, impl, model, k):
 
 
 if __name__ == "__main__":
-    streamlib.run_property("C18", lca, ["db", "forms", "down", "fn", "summ", "down", "big"], lca.oracle,
+    streamlib.run_property("C18", lca, ["db", "forms", "down", "fn", "summ", "down", "big", "db", "forms", "down", "fn", "summ", "index", "big"], lca.oracle,
                            4000, 60000, TB, AS, RULE, nontrivial=lca.nontrivial, classify=classify)
